@@ -77,20 +77,15 @@ def fault_runs(ctx, thorough):
                 if armed is None:
                     continue
                 ctl["raise"][("zzz997", ev)] = armed
-            tmp_before = set(os.listdir(tempfile.gettempdir()))
             if kind == "parser":
                 with implib.parser_fault():
-                    code, out, err = vlib.run_main(argv, cwd=d)
+                    (code, out, err), _ops = F.record_ops(lambda: vlib.run_main(argv, cwd=d), d, set(names))
             else:
-                code, out, err = vlib.run_main(argv, cwd=d)
+                (code, out, err), _ops = F.record_ops(lambda: vlib.run_main(argv, cwd=d), d, set(names))
+            leaked = [os.path.basename(x) for x in F.record_ops.temps_left]
             ctl["raise"].clear()
             fired = kind != "plugin" or "ZZZ997" in err
             after = {fn: implib.read_bytes(os.path.join(d, fn)) for fn in names}
-            tmp_after = set(os.listdir(tempfile.gettempdir()))
-            leaked = sorted(x for x in tmp_after - tmp_before if x.startswith("tmp"))
-            for x in leaked:
-                try: os.remove(os.path.join(tempfile.gettempdir(), x))
-                except OSError: pass
             evals += 1
             dist[kind] = dist.get(kind, 0) + 1
             case = {"fault": [kind, ev, k], "victim_position": pos, "mode": mode, "continue": cont}
@@ -151,6 +146,48 @@ def absolute_count(log, pid, ev, k, victim):
     return None
 
 
+SINK = ("# Title\n\nSee http://bare.example.com and text  with *emph* here.\n\n## Sub\n\n- a\n- b\n\n1. x\n2. y\n\n> quote\n\n"
+        "```py\ncode http://in.code\n```\n\n    indented\n\n<b>html</b> [l](/u) ![i](/u)\n\nlast line\n")
+MIDFILE_VICTIMS = ["# V\n\n```text\nvictim in code\nmore\n```\n\nafter\n", "- victim\n  - nested\n    text\n\npara\n", "> victim quote\n> > deeper\n\npara\n",
+                   "# V\n\n## A\n\n#### skip victim\n", "victim *emph **strong** x* `code`\n\n[r]: /u\n\n[r]\n", "<div>\nvictim html\n</div>\n\n    indented\n"]
+
+
+def midfile_faults(ctx, thorough):
+    """A rule raises at the k-th token / line of a victim with open constructs (code block, list, quote…); the NEXT file is a
+    document every rule reacts to.  With --continue-on-error its output must equal its output alone (no state of any
+    rule may survive the aborted file)."""
+    fails, evals = [], 0
+    ctl = implib.probe_ctl()
+    with implib.workspace() as ws:
+        plug = implib.probe_plugin(os.path.join(ws, "plug2"), pid="aaa997", callbacks=("token", "line"), fix=False, level=1)
+        ids, _ = E.builtin_meta()
+        for cfgname, cfg in (("default", []), ("all", ["-e", ",".join(ids)])):
+            d0 = os.path.join(ws, "sink"); shutil.rmtree(d0, ignore_errors=True); os.makedirs(d0)
+            implib.write(os.path.join(d0, "2sink.md"), SINK)
+            c, o, e = vlib.run_main(cfg + ["scan", "2sink.md"], cwd=d0)
+            alone = [l for l in o.splitlines() if l.startswith("2sink.md")]
+            combos = [(v, ev, k) for v in MIDFILE_VICTIMS for ev in ("token", "line") for k in range(1, 26 if ev == "token" else 8)]
+            if not thorough:
+                combos = docs.sample(ctx.rng, combos, 40)
+            for v, ev, k in combos:
+                d = os.path.join(ws, "mf"); shutil.rmtree(d, ignore_errors=True); os.makedirs(d)
+                implib.write(os.path.join(d, "1victim.md"), v)
+                implib.write(os.path.join(d, "2sink.md"), SINK)
+                implib.probe_reset()
+                ctl["raise"][("aaa997", ev)] = k
+                code, out, err = vlib.run_main(["--add-plugin", plug, "--continue-on-error"] + cfg + ["scan", "1victim.md", "2sink.md"], cwd=d)
+                ctl["raise"].clear()
+                if not any(l.startswith("1victim.md:0:0:") and "AAA997" in l for l in err.splitlines()):
+                    continue          # fewer than k calls in the victim: the fault did not fire there
+                evals += 1
+                got = [l for l in out.splitlines() if l.startswith("2sink.md")]
+                if got != alone:
+                    miss = [l for l in alone if l not in got][:3]
+                    extra = [l for l in got if l not in alone][:3]
+                    fails.append(({"victim": v, "fault": [ev, k], "config": cfgname}, "file-after-fault-not-as-alone", {"missing": miss, "unexpected": extra}))
+    return evals, fails
+
+
 def strace_kill(ctx, thorough):
     """Kill the real process at each syscall of the write-back of a fixed file; compare what is left with the model."""
     if shutil.which("strace") is None:
@@ -200,9 +237,11 @@ def strace_kill(ctx, thorough):
 
 
 def run(ctx):
-    ctx.lean_stage(["exit_table"], ["Verif.Props.C15"])
+    ctx.lean_stage(["exit_table", "rule_fields"], ["Verif.Props.C15", "Verif.Props.C13"])   # continue-equivalence rests on the total-reset table of C13
     stats_c, samples = F.fix_correspondence(ctx, 25 if ctx.quick() else 300, F.FIX_CORPUS)
     evals, fails, samples2, dist = fault_runs(ctx, not ctx.quick())
+    ev_mid, fails_mid = midfile_faults(ctx, not ctx.quick())
+    fails = fails + fails_mid
     kstats, kfails = strace_kill(ctx, not ctx.quick())
     absorbed = {}
     for case, sym, det in fails + kfails:
@@ -221,6 +260,7 @@ def run(ctx):
                         "fault_enumeration": {"evaluations": evals, "distinct_nontrivial": evals, "faults_by_kind": dist, "footprints_absorbed": absorbed,
                                               "rule": "(callback, k-th call | parser | undecodable) x victim position in a 3-file run x scan/fix x continue/stop; every run has a fault that fired",
                                               "exhaustive": not ctx.quick()},
+                        "midfile_faults": {"evaluations": ev_mid, "rule": "6 victims with open constructs x fault at k-th token/line x {default, all rules}; follower = a document every rule reacts to", "exhaustive": not ctx.quick()},
                         "kill_injection": kstats, "samples": samples2 + samples[:1]})
 
 
